@@ -10,6 +10,11 @@ impl Clone for R32 {
     fn clone(&self) -> (r: Self) ensures r == *self { R32 { v: self.v } }
 }
 impl Copy for R32 {}
+/// f32::default() is 0.0
+impl Default for R32 {
+    #[verifier::external_body]
+    fn default() -> (r: Self) ensures val(r) == 0real { R32 { v: 0.0 } }
+}
 
 pub uninterp spec fn val(x: R32) -> real;
 pub uninterp spec fn mk(x: real) -> R32;
